@@ -6,6 +6,8 @@ use serde_json::Value;
 // Fast PEG-based parser for STORE commands (extracts JSON directly without tokenization)
 peg::parser! {
     grammar sneldb_store() for str {
+        use super::MAX_JSON_NESTING;
+
         rule _() = quiet!{ [' ' | '\t' | '\n' | '\r']* }
 
         rule ci(s: &'static str) -> ()
@@ -27,15 +29,21 @@ peg::parser! {
         // Extract JSON block directly as string slice (much faster than tokenizing and rebuilding)
         // Matches balanced braces and captures the entire JSON object as a string slice
         rule json_block() -> &'input str
-            = _ json:$(balanced_braces()) {
+            = _ json:$(balanced_braces(0)) {
                 json
             }
 
-        // Match balanced braces and capture everything including the braces
-        rule balanced_braces() -> &'input str
-            = json:$( "{" (balanced_braces() / (!['{' | '}'] [_]))* "}" ) {
+        // Match balanced braces and capture everything including the braces.
+        // Braces inside JSON string literals do not count; `depth` bounds the recursion.
+        rule balanced_braces(depth: usize) -> &'input str
+            = json:$( "{" ({? if depth < MAX_JSON_NESTING { Ok(()) } else { Err("shallower nesting") } })
+                      (balanced_braces(depth + 1) / json_string() / (!['{' | '}' | '"'] [_]))* "}" ) {
                 json
             }
+
+        // JSON string literal, skipped as a unit (honours \" and \\ escapes)
+        rule json_string() -> ()
+            = "\"" ("\\" [_] / (!['"' | '\\'] [_]))* "\""
 
         pub rule store() -> (&'input str, &'input str, &'input str)
             = _ ci("STORE") _
@@ -53,8 +61,8 @@ peg::parser! {
 
 /// Fast PEG-based parser that extracts JSON directly from string
 pub fn parse_peg(input: &str) -> Result<Command, ParseError> {
-    // balanced_braces() recurses once per '{' (it does not know about strings),
-    // so bound the raw brace depth before running the grammar
+    // balanced_braces() recurses once per '{' outside of strings and stops at
+    // MAX_JSON_NESTING itself; this rejects raw brace depth beyond it up front
     if raw_brace_depth_exceeds(input, MAX_JSON_NESTING) {
         return Err(nesting_error());
     }
@@ -79,7 +87,7 @@ pub fn parse_peg(input: &str) -> Result<Command, ParseError> {
 }
 
 /// Returns true if `input` opens more than `max` nested `{` (strings are not recognised,
-/// exactly like the `balanced_braces` rule).
+/// unlike in the `balanced_braces` rule: a `}` inside a string closes a level here).
 fn raw_brace_depth_exceeds(input: &str, max: usize) -> bool {
     let mut depth = 0usize;
     for b in input.bytes() {
